@@ -1,5 +1,5 @@
 (* Cases.v — concrete instances used when the models are *run* (correspondence), never in theorems. *)
-From Beff Require Export Model.Validate Model.Parse Model.Report.
+From Beff Require Export Model.Validate Model.Parse Model.Report Model.Hash256Enc.
 
 Fixpoint str_len (s : string) : nat := match s with EmptyString => 0 | String _ s' => S (str_len s') end.
 
@@ -35,3 +35,13 @@ Definition spec_revalidate (env : renv) (strict : bool) (r : rt) (d : val) : str
   show_res show_bool (validate F0 env FUEL strict r d).
 Definition run_print_errors (es : list err) : string :=
   show_res (fun s => s) (print_errors FUEL es).
+
+Definition run_hash256 (env : renv) (r : rt) : string :=
+  match hash256_writes env FUEL r with
+  | Ok ws => show_writes ws +++ "|" +++ hex_words (digest_words K_source (fold_left (update_bytes K_source) ws (writer_init H0_source)))
+  | Throw e => show_exn e
+  end.
+Definition run_hash32 (env : renv) (r : rt) : string :=
+  show_res Z_to_string (hash32 env FUEL [] r).
+Definition run_writer (writes : list (list N)) : string :=
+  writer_hex writes +++ "|" +++ sha256_hex (List.concat writes).
